@@ -13,7 +13,7 @@ PROPS = {
     "C01": dict(
         pkg="c01",
         quick=T(8, 2, 900),
-        thorough=T(16, 40, 3400, fuzz=[dict(name="FuzzVerify", count=150000)]),
+        thorough=T(16, 40, 3400, fuzz=[dict(name="FuzzGenVerify", count=60000), dict(name="FuzzVerify", count=150000)]),
         assumptions=[
             "harness/ref/ed: big-integer edwards25519 model written from RFC 8032 5.1 and ZIP-215 (self-checked: base point encoding, L*B = O, the 8 published small-order encodings, RFC 8032 test vector 1) evaluates the statement's predicate literally",
             "crypto/ed25519 as one-sided oracle (everything it accepts must be accepted)",
@@ -32,7 +32,7 @@ PROPS = {
     "C03": dict(
         pkg="c03",
         quick=T(4, 1.5, 600),
-        thorough=T(16, 60, 3000, fuzz=[dict(name="FuzzSentence", count=1500000)]),
+        thorough=T(16, 60, 3000, fuzz=[dict(name="FuzzGenSentence", count=500000), dict(name="FuzzSentence", count=1500000)]),
         assumptions=[
             "harness/ref/bip39 (bit-string codec, self-checked on the official Trezor vectors) is the BIP-39 specification",
             "english word list = /verif/data/english.txt, whose SHA-256 is the published digest of bip-0039/english.txt; japanese list pinned to the digest of the pinned commit (no independent copy exists offline) and cross-checked only by the repository's official Japanese vectors",
@@ -41,13 +41,13 @@ PROPS = {
     "C04": dict(
         pkg="c04",
         quick=T(4, 4, 600),
-        thorough=T(16, 200, 3000, fuzz=[dict(name="FuzzDecode", count=3000000)]),
+        thorough=T(16, 200, 3000, fuzz=[dict(name="FuzzGenDecode", count=2000000), dict(name="FuzzDecode", count=3000000)]),
         assumptions=BECH32_ASSUME + ["strings are judged as byte strings; 'character' in the 90-character limit means byte (identical for the ASCII strings that can be valid)"],
     ),
     "C05": dict(
         pkg="c05",
         quick=T(4, 4, 600),
-        thorough=T(16, 300, 3000),
+        thorough=T(16, 300, 3000, fuzz=[dict(name="FuzzGenEncode", count=2000000)]),
         assumptions=BECH32_ASSUME,
     ),
     "C11": dict(
@@ -86,7 +86,7 @@ PROPS = {
     "C14": dict(
         pkg="c14",
         quick=T(4, 4, 600),
-        thorough=T(16, 500, 3000),
+        thorough=T(16, 500, 3000, fuzz=[dict(name="FuzzGenDecode", count=2000000)]),
         assumptions=[
             "harness/ref/trit (integer arithmetic from TIP-5, self-checked on the TIP-5 examples) is the specification of b1t6/b1t8 and of the tryte alphabet",
             "only trits in {-1,0,1} and trytes in 9A-Z are generated; behaviour outside is documented as undefined",
@@ -95,7 +95,7 @@ PROPS = {
     "C15": dict(
         pkg="c15",
         quick=T(4, 2, 600),
-        thorough=T(16, 150, 3000),
+        thorough=T(16, 150, 3000, fuzz=[dict(name="FuzzGenTrees", count=100000)]),
         assumptions=[
             "crypto/sha256, sha512, sha1 and x/crypto/blake2b are trusted as the hash functions",
             "the reference is an iterative binary-counter construction plus the RFC 9162 inclusion-proof verifier; both live in harness/c15",
@@ -104,7 +104,7 @@ PROPS = {
     "C16": dict(
         pkg="c16",
         quick=T(4, 1.5, 600),
-        thorough=T(16, 60, 3400),
+        thorough=T(16, 60, 3400, fuzz=[dict(name="FuzzGenE2E", count=2000000)]),
         assumptions=BECH32_ASSUME + [
             "syndrome argument: the checksum is measured black-box through Encode; that Decode rejects exactly the strings with a non-zero syndrome is property C04/C05 plus the end-to-end sub-checks here",
         ],
@@ -112,7 +112,7 @@ PROPS = {
     "C17": dict(
         pkg="c17",
         quick=T(8, 2, 900),
-        thorough=T(16, 50, 3400),
+        thorough=T(16, 50, 3400, fuzz=[dict(name="FuzzGenOps", count=30000)]),
         assumptions=["harness/ref/secp: affine secp256k1 with textbook case analysis (self-checked: G on curve, n*G = O, (n-1)G = -G, published 2G and 3G)",
                      "the internal copy of the curve is reached through elliptic.Secp256k1() (its dynamic type promotes the embedded elliptic.Curve methods)"],
     ),
@@ -128,7 +128,7 @@ PROPS = {
     "C19": dict(
         pkg="c19",
         quick=T(4, 3, 600),
-        thorough=T(16, 200, 3000, fuzz=[dict(name="FuzzParseBech32", count=2000000)]),
+        thorough=T(16, 200, 3000, fuzz=[dict(name="FuzzGenParse", count=1500000), dict(name="FuzzParseBech32", count=2000000)]),
         assumptions=BECH32_ASSUME + [
             "golang.org/x/crypto/blake2b is trusted for the address hashes and the migration checksum",
             "harness/ref/trit is the specification of b1t6 and the tryte alphabet",
@@ -139,7 +139,7 @@ PROPS = {
         pkg="c06",
         variants=[[], ["purego"]],
         quick=T(8, 1.5, 900),
-        thorough=T(16, 150, 3400),
+        thorough=T(16, 150, 3400, fuzz=[dict(name="FuzzGenHistories", count=20000)]),
         assumptions=[
             "harness/ref/curl: scalar Curl-P-81 from the truth-table definition (self-checked on the 300 pinned Curl-P-81 vectors incl. multi-block absorb and squeeze; cross-checked against iota.go/curl in its own unit test)",
             "half of the shards run the build with -tags purego (portable permutation), half the default build (assembly on amd64)",
@@ -155,13 +155,13 @@ PROPS = {
     "C08": dict(
         pkg="c08",
         quick=T(8, 2, 900),
-        thorough=T(16, 40, 3400),
+        thorough=T(16, 40, 3400, fuzz=[dict(name="FuzzGenShift", count=40000)]),
         assumptions=["harness/ref/secp (affine big-integer arithmetic, self-checked: n*G = O, published 2G/3G) as third opinion for the shifted keys"],
     ),
     "C09": dict(
         pkg="c09",
         quick=T(4, 1.5, 600),
-        thorough=T(16, 80, 3000),
+        thorough=T(16, 80, 3000, fuzz=[dict(name="FuzzGenParse", count=1000000)]),
         assumptions=[
             "harness/ref/bip39: own PBKDF2-HMAC-SHA512 on crypto/hmac (self-checked on an official BIP-39 seed vector) and the pinned word lists",
             "NFKD: a hand-made (raw, NFKD) piece table from the Unicode character database is cross-checked against golang.org/x/text at start-up; for arbitrary passphrases x/text NFKD itself is the oracle (trusted)",
@@ -171,7 +171,7 @@ PROPS = {
     "C10": dict(
         pkg="c10",
         quick=T(4, 4, 600),
-        thorough=T(16, 250, 3000, fuzz=[dict(name="FuzzParsePath", count=3000000)]),
+        thorough=T(16, 250, 3000, fuzz=[dict(name="FuzzGenStrings", count=2000000), dict(name="FuzzParsePath", count=3000000)]),
         assumptions=[
             "the reference parser (harness/c10, hand-written, base 10, no regexp/strconv) is the specification of the accepted language",
         ],
